@@ -46,7 +46,7 @@ func c08Gen(t *rapid.T) c08Case {
 	var c c08Case
 	c.InitWin = rapid.SampledFrom([]uint32{0, 1, 100, 16384, 65535, 1 << 20}).Draw(t, "initwin")
 	c.MaxFrame = rapid.SampledFrom([]uint32{16384, 16385, 65536, 1<<24 - 1}).Draw(t, "maxframe")
-	c.Sched = rapid.IntRange(0, 3).Draw(t, "sched")
+	c.Sched = rapid.IntRange(0, 4).Draw(t, "sched")
 	sz := rapid.OneOf(rapid.IntRange(0, 300), rapid.SampledFrom([]int{0, 1, 16383, 16384, 16385, 65535, 65536, 100000}))
 	c.Resps = rapid.SliceOfN(rapid.Custom(func(t *rapid.T) c08Resp {
 		return c08Resp{
@@ -62,6 +62,10 @@ func c08Gen(t *rapid.T) c08Case {
 		kind := rapid.SampledFrom([]string{"open", "open", "wu", "wu", "wu", "wuconn", "wuconn", "settings_win", "settings_frame", "rst", "ping"}).Draw(t, "kind")
 		s := c08Step{Kind: kind, K: rapid.IntRange(0, n-1).Draw(t, "k")}
 		switch kind {
+		case "open":
+			if rapid.Bool().Draw(t, "hasParent") {
+				s.V = uint32(1 + rapid.IntRange(0, n-1).Draw(t, "parent"))
+			}
 		case "wu", "wuconn":
 			s.V = rapid.OneOf(rapid.Uint32Range(1, 70000), rapid.SampledFrom([]uint32{1, 2, 100, 16384, 65535, 1 << 20})).Draw(t, "inc")
 		case "settings_win":
@@ -285,7 +289,16 @@ func c08Run(c c08Case, r *vp.Rec) error {
 			sm := &c08Stream{id: id, win: curInit, planLen: planLen[st.K], plan: st.K}
 			streams[id] = sm
 			byPlan[st.K] = sm
-			if err := s.fr.WriteHeaders(HeadersFrameParam{StreamID: id, BlockFragment: s.reqHeaders("GET", "/"+strconv.Itoa(st.K)), EndStream: true, EndHeaders: true}); err != nil {
+			hp := HeadersFrameParam{StreamID: id, BlockFragment: s.reqHeaders("GET", "/"+strconv.Itoa(st.K)), EndStream: true, EndHeaders: true}
+			if st.V > 0 {
+				// RFC 7540 priority: depend on an earlier stream (a child of an open,
+				// possibly idle parent is what the priority schedulers treat specially)
+				if par := byPlan[int(st.V-1)]; par != nil && par.id != id {
+					hp.Priority = PriorityParam{StreamDep: par.id, Weight: 15}
+					r.Class("open-with-parent")
+				}
+			}
+			if err := s.fr.WriteHeaders(hp); err != nil {
 				return fmt.Errorf("harness: headers: %v", err)
 			}
 		case "wu":
